@@ -41,6 +41,7 @@ RULES = {
     "R8.4": "the iterate (1st component of the step) is stored into the solver's primary attribute before the break test on every path",
     "R8.5": "the step's measure is the documented measure of (sweep result, pre-sweep self.values), for each convergence_test value (dispatch R8.7)",
     "R8.6": "no write to a loop-carried attribute before the loop; post-loop writes to one only under the convergence guard",
+    "R8.9": "every call solve(k), k > 0, runs the sweep loop: no path from the entry of solve() to a normal return avoids the loop (an early return on remembered state - a `converged` flag, a cached result - stops before the documented stopping rule has been evaluated on the state the solver holds NOW, which a restore / load_checkpoint / assignment may have replaced); a guard on the limit parameter alone is outside the property (positive limits)",
     "R8.8": "initial values are problem.initial_value(state_space[n]) for every state n; the counter starts at 0",
 }
 ASSUMPTIONS = [
@@ -62,6 +63,7 @@ def run(ctx: Context, col) -> None:
         part(_paths, ctx, cls, loop, col)
         part(_break_rule, ctx, cls, loop, col)
         part(_outside_loop, ctx, cls, loop, col)
+        part(_no_bypass, ctx, cls, loop, col)
         part(_measure, ctx, cls, col)
         part(_initial, ctx, cls, col)
     part.finish()
@@ -72,6 +74,7 @@ def run(ctx: Context, col) -> None:
     col.floor("R8.5", 6)
     col.floor("R8.6", 5)
     col.floor("R8.8", 5)
+    col.floor("R8.9", 5)
 
 
 # ------------------------------------------------------------------ path rules
@@ -549,3 +552,38 @@ def _initial(ctx, cls, col):
             "constructor leaves values = initial values of the problem and iteration = 0" if ok2 else
             f"constructor leaves values = {brief(v) if v else None}, iteration = {show_norm(it) if it else None}",
             text="constructor state")
+
+
+# ------------------------------------------------------------ no return that bypasses the loop
+def _no_bypass(ctx, cls, loop: SolveLoop, col, rule="R8.9"):
+    """A normal return reachable from the entry without passing the loop header."""
+    construct = f"{cls.name}.solve"
+    g = loop.cfg
+    if not g.reachable_avoiding(g.entry, g.exit, lambda m: m is loop.header):
+        col.add(rule, construct, loop.file, loop.header.lineno, True,
+                "every path from the entry of solve() to a normal return passes the sweep loop", text="no return bypasses the loop")
+        return
+    from .common import conditions_at
+    # name the offending exit(s): return statements (or the implicit fall-off) not dominated by the loop header
+    rets = [n for n in g.stmts() if isinstance(n.ast, ast.Return) and n.id not in loop.members and not g.dominates(loop.header, n)
+            and g.reachable_avoiding(g.entry, n, lambda m: m is loop.header)]
+    if not rets:
+        raise AnalysisError(f"{construct}: a path reaches the exit without passing the sweep loop, but no return statement is on it "
+                            "(loop under a conditional?); R8.9 cannot be decided")
+    lim = loop.limit_param
+    for n in rets:
+        conds = conditions_at(loop.fn, n.ast)
+        reads_state = any(isinstance(x, ast.Attribute) or isinstance(x, ast.Call) for c in conds for x in ast.walk(c))
+        names = {x.id for c in conds for x in ast.walk(c) if isinstance(x, ast.Name)}
+        if conds and not reads_state and names <= {lim}:
+            col.add(rule, construct, loop.file, n.lineno, True,
+                    f"early return guarded by the limit parameter alone ({[ast.unparse(c) for c in conds]}): outside the property (positive limits)",
+                    text="limit-only early return")
+            continue
+        if not conds:
+            raise AnalysisError(f"{construct}: return at line {n.lineno} precedes the sweep loop unconditionally; R8.9 cannot be decided")
+        col.add(rule, construct, loop.file, n.lineno, False,
+                f"`{stmt_text(n)}` at line {n.lineno} returns without running the sweep loop when {[ast.unparse(c) for c in conds]}: "
+                "solve(k) then performs no sweep and evaluates no stopping rule on the state the solver holds now (after restore / "
+                "load_checkpoint / an assignment of values or policy the remembered condition is stale)",
+                text="return bypasses the loop")
